@@ -31,12 +31,14 @@ CONSTANTS Threads, Names, Codes, MaxCalls,
 Base(n) == IF n \in {"be/banks", "cz/banks"} THEN "banks" ELSE n
 Key(n) == IF BaseKey THEN Base(n) ELSE n
 Keys == {Key(n) : n \in Names}
+\* @type: Str => Seq(Str);
 File(n) == <<"content", n>>
 
 (* ---- eu.vat: what the dispatch must answer (a function of the code only) ---- *)
 Members == {"nl", "gr", "xi"}
 Alias(cc) == IF cc = "el" THEN "gr" ELSE cc
 Target(cc) == IF cc = "xi" THEN "gb" ELSE cc
+\* @type: Str => Seq(Str);
 VatOf(cc) == IF Alias(cc) \in Members THEN <<"module", Target(Alias(cc))>> ELSE <<"none">>
 
 NoEntry == [present |-> FALSE, owner |-> "none", full |-> FALSE, dirty |-> FALSE]
